@@ -69,5 +69,8 @@ func TestRaceC14(t *testing.T) {
 	if g := c14.ProcessGlobals(); g != "" {
 		t.Fatalf("process-wide values modified: %s", g)
 	}
+	if g := c14.ScanSmallInts(); g != "" {
+		t.Fatalf("process-wide values modified: %s", g)
+	}
 	report(map[string]any{"workloads": n, "repeats_each": 2, "seconds": d.Seconds()})
 }
